@@ -265,7 +265,7 @@ Breaks(ps) ==
   \cup {BR("input-types", "directive-argument", [ps EXCEPT ![tg].args = Append(@, Ar("bad", Nm("User")))])}
   \* interfaces
   \cup {BR("interfaces", "missing-field", [ps EXCEPT ![po].fields = Without(@, 2)])}
-  \cup {BR("interfaces", "incompatible-field-type", [ps EXCEPT ![po].fields = [@ EXCEPT ![1] = [@ EXCEPT !.type = t]]]) : t \in {Nm("ID"), Nn(Nm("String")), Li(Nn(Nm("ID")))}}
+  \cup {BR("interfaces", "incompatible-field-type", [ps EXCEPT ![po].fields = [@ EXCEPT ![1] = [@ EXCEPT !.type = t]]]) : t \in {Nm("ID"), Nn(Nm("String")), Li(Nn(Nm("ID"))), Li(Nm("ID"))}}
   \cup {BR("interfaces", "missing-argument", [ps EXCEPT ![po].fields = [@ EXCEPT ![2] = [@ EXCEPT !.args = <<>>]]])}
   \cup {BR("interfaces", "mistyped-argument", [ps EXCEPT ![po].fields = [@ EXCEPT ![2] = [@ EXCEPT !.args = <<ArD("up", Nm("Int"), L("int", 1))>>]]])}
   \cup {BR("interfaces", "extra-required-argument", [ps EXCEPT ![po].fields = [@ EXCEPT ![2] = [@ EXCEPT !.args = Append(@, Ar("req", Nn(Nm("Int"))))]]])}
@@ -282,6 +282,9 @@ Breaks(ps) ==
   \* (not combined with an `extend schema` that re-declares the operation: which declaration wins is not a checked rule)
   \cup {BR("roots", "undefined-default-subscription", [ps EXCEPT ![sc].roots = << <<"query", "Query">>, <<"subscription", "Subscription">> >>]) :
            x \in IF \E i \in Idxs(ps) : ps[i].ext /\ ps[i].kind = "SCHEMA" THEN {} ELSE {1}}
+  \* an undefined root type named by an `extend schema` piece
+  \cup {BR("roots", "undefined-subscription-via-extend-schema", Append(ps, [ExtPiece("SCHEMA", "") EXCEPT !.roots = << <<"subscription", nm>> >>])) :
+           nm \in IF \E i \in Idxs(ps) : ps[i].kind = "SCHEMA" /\ \E k \in Idxs(ps[i].roots) : ps[i].roots[k][1] = "subscription" THEN {} ELSE {"Nope", "Subscription"}}
   \cup {BR("roots", "default-query-missing", [[ps EXCEPT ![q].name = "Qry"] EXCEPT ![sc].roots = << <<"mutation", "Mut">> >>])}
   \* objects, unions, enums, duplicates
   \cup {BR("non-empty-object", "object", Append(ps, Piece(FALSE, "OBJECT", "Empty")))}
